@@ -39,6 +39,18 @@ def push(v):
     return bytes([C['OP_PUSH2']]) + len(v).to_bytes(2, 'big') + v
 
 
+def reorder(fields, order):
+    """The same entries inserted into the dict in another order (the statement says index order, not insertion order)."""
+    keys = sorted(fields)
+    if order == 'reversed':
+        keys = keys[::-1]
+    elif isinstance(order, int) and len(keys) > 1:
+        import random
+        keys = list(keys)
+        random.Random(order).shuffle(keys)
+    return {k: fields[k] for k in keys}
+
+
 def run(code, fields):
     try:
         _, s, c = F.run_script(code, dict(fields))
@@ -248,12 +260,13 @@ def task_matrix(ctx):
     n = 0
     for flag in range(ctx.shard, 256, ctx.nshards):
         for allowed in range(256):
-            fails = check_cell(SEED0, LAYOUT, flag, allowed, True)
+            lay = LAYOUT if (flag + allowed) % 2 == 0 else reorder(LAYOUT, 'reversed')
+            fails = check_cell(SEED0, lay, flag, allowed, True)
             nt = bool(flag)
             ctx.case(('cell', flag, allowed), nt)
             n += 1
             for s, d in fails:
-                ctx.fail('cell', s, {'check': 'cell', 'seed': SEED0, 'fields': LAYOUT, 'flag': flag, 'allowed': allowed}, d)
+                ctx.fail('cell', s, {'check': 'cell', 'seed': SEED0, 'fields': lay, 'flag': flag, 'allowed': allowed}, d)
         if flag in (5, 0x80):
             ctx.sample({'check': 'cell', 'flag': flag, 'allowed': 'all 256', 'fields_present': sorted(LAYOUT)})
     ctx.exhaustive['flag x allowed cells (CHECK_SIG + CHECK_SIG_VERIFY, honest + other-message signature)'] = n
@@ -273,11 +286,13 @@ def task_subsets(ctx):
                   if (subset >> i) & 1}
         for flag in [0, 0xff] + [1 << k for k in range(8)] + ([0x55, 0xaa] if ctx.thorough() else []):
             use_ref = (subset % 16 == ctx.shard % 16 and flag in (0, 1, 0x80)) or ctx.thorough()
-            fails = check_sign_msg(SEED0, fields, flag, use_ref=use_ref)
-            ctx.case(('signmsg', subset, flag), any((flag >> (int(k[-1]) - 1)) & 1 for k in fields))
-            n += 1
-            for s, d in fails:
-                ctx.fail('signmsg', s, {'check': 'signmsg', 'seed': SEED0, 'fields': fields, 'flag': flag}, d)
+            for order in ('ascending', 'reversed', subset * 31 + flag):
+                f2 = reorder(fields, order)
+                fails = check_sign_msg(SEED0, f2, flag, use_ref=use_ref and order == 'ascending')
+                ctx.case(('signmsg', subset, flag, order), any((flag >> (int(k[-1]) - 1)) & 1 for k in fields))
+                n += 1
+                for s, d in fails:
+                    ctx.fail('signmsg', s, {'check': 'signmsg', 'seed': SEED0, 'fields': f2, 'flag': flag}, d)
     ctx.exhaustive['presence subsets x flags (GET_MESSAGE, SIGN, sign-then-check)'] = n
 
 
@@ -298,6 +313,7 @@ def general(draw):
     op = draw(st.sampled_from(['CHECK_SIG', 'CHECK_SIG', 'CHECK_SIG_VERIFY', 'CHECK_SIG_STACK', 'SIGN', 'SIGN_STACK', 'GET_MESSAGE']))
     corrupt = draw(st.sampled_from(['none', 'none', 'key-bit', 'sig-bit', 'covered-field', 'excluded-field', 'flag-byte',
                                     'key-len', 'sig-len']))
+    fields = reorder(fields, draw(st.one_of(st.just('ascending'), st.just('reversed'), st.integers(0, 1000))))
     c = {'check': 'general', 'seed': seed, 'fields': fields, 'flag': flag, 'allowed': allowed, 'op': op,
          'corrupt': (corrupt, draw(st.integers(0, 4095))), 'form65': draw(st.booleans())}
     if op in ('SIGN_STACK', 'CHECK_SIG_STACK') and draw(st.booleans()):
